@@ -454,6 +454,16 @@ class Fn:
     def dominates(self, a, b):
         return a in self.dominators().get(b, ())
 
+    def edge_dominates(self, src, tgt, block):
+        """every path to `block` takes the CFG edge src->tgt: tgt dominates block and tgt can only be
+        entered through that edge (other predecessors are back edges from inside tgt's region)"""
+        if not self.dominates(tgt, block):
+            return False
+        for p in self.preds(tgt):
+            if p != src and not self.dominates(tgt, p):
+                return False
+        return True
+
     # ---- defs -----------------------------------------------------------
     def defs(self):
         """local -> list of def sites: ('stmt', bb, idx, stmt) / ('call', bb, term) ; only
